@@ -1,9 +1,9 @@
 package main
 
 import (
-	"os"
 	"fmt"
 	"go/constant"
+	"os"
 	"strings"
 
 	"golang.org/x/tools/go/ssa"
@@ -890,7 +890,6 @@ func ruleC20Order(c *Ctx) {
 	c.Check(len(why) == 0, "c20.order", "evaluation-order", "-", "immediate registration; in-order slice loops for arguments, select items and rows", strings.Join(why, "; "))
 }
 
-
 // ruleC20OptionsShared: nested statements evaluate with the very Options object of the enclosing query.
 func ruleC20OptionsShared(c *Ctx) {
 	c.Doc("c20.options-shared", "variables (and constants, callbacks) live in the Options object: Prepare stores its options parameter itself into the new query (no copy), every call of Prepare in the module passes the enclosing query's options, and query copies carry the same pointer: a GETVAR/SETVAR inside a subquery, EXISTS, derived table, CTE or union branch sees the same register file")
@@ -1184,5 +1183,78 @@ func ruleC14AwaitWaits(c *Ctx) {
 	}
 	if n == 0 {
 		c.Unknown("c14.await-waits", "FunExpr", c.P.Pos(f.Pos()), "anchor lost: no post-processor closure that evaluates the arguments")
+	}
+}
+
+func init() { register("C14", ruleC14DrainAfterRun); register("C12", ruleC14DrainAfterRun) }
+
+// ruleC14DrainAfterRun: pending post-processors are only ever dropped after they have run.
+func ruleC14DrainAfterRun(c *Ctx) {
+	c.Doc("c14.drain-after-run", "the list of pending post-processors of an existing query (the closures that put the delivered value of an ASYNC call in place of its slot, also those adopted from derived tables and join sides when the statement was built) is emptied only behind the loop that runs them, in the same function: a reset in a deferred function, on an error path or ahead of the loop throws away post-processors that never ran, and a later successful Exec of the same query returns rows that still hold `*any` slots. Constructors that give a new query its first, empty list are exempt")
+	n := 0
+	for _, f := range c.P.ModFuncs {
+		if len(f.Blocks) == 0 {
+			continue
+		}
+		k := 0
+		allInstrs(f, func(b *ssa.BasicBlock, in ssa.Instruction) {
+			st, ok := in.(*ssa.Store)
+			if !ok {
+				return
+			}
+			fa, ok := st.Addr.(*ssa.FieldAddr)
+			if !ok || !isNamedType(fa.X.Type(), modPath, "Query") || fieldName(fa.X.Type(), fa.Field) != "postProcessors" {
+				return
+			}
+			if _, fresh := fa.X.(*ssa.Alloc); fresh {
+				return // a query under construction
+			}
+			v := NewTB().Of(st.Val)
+			reset := v.Op == "const" && v.Name == "nil" || isFreshSliceTerm(v) || v.Op == "make" || v.Op == "slice" && len(v.Args) == 4 && v.Args[2].String() == "c:0"
+			if !reset {
+				return
+			}
+			n++
+			k++
+			key := fmt.Sprintf("%s/reset#%d", c.P.funcKey(f), k)
+			if f.Parent() != nil {
+				c.Fail("c14.drain-after-run", key, c.P.Pos(st.Pos()), "the pending post-processors are dropped by a function literal (a deferred clean-up runs on the error path too, where they never ran)")
+				return
+			}
+			after := false
+			for _, dl := range deepRangeLoops(f) {
+				if !(dl.over.Op == "field" && dl.over.Name == "postProcessors") {
+					continue
+				}
+				if dl.fn == f {
+					if dl.lp.exit.Dominates(b) {
+						after = true
+					}
+					continue
+				}
+				// the loop lives in a helper: the reset follows the call of that helper
+				allInstrs(f, func(cb *ssa.BasicBlock, cin ssa.Instruction) {
+					if call, isCall := cin.(*ssa.Call); isCall && call.Common().StaticCallee() == dl.fn {
+						if cb != b && cb.Dominates(b) {
+							after = true
+						}
+						if cb == b {
+							for _, x := range b.Instrs {
+								if x == ssa.Instruction(call) {
+									after = true
+								}
+								if x == ssa.Instruction(st) {
+									break
+								}
+							}
+						}
+					}
+				})
+			}
+			c.Check(after, "c14.drain-after-run", key, c.P.Pos(st.Pos()), "behind the loop that runs the post-processors", "the pending post-processors are dropped at a point that is not behind the loop that runs them")
+		})
+	}
+	if n == 0 {
+		c.Unknown("c14.drain-after-run", "resets", "-", "anchor lost: nothing empties the list of post-processors (exec's early run is expected to)")
 	}
 }
